@@ -49,7 +49,7 @@ func VC12_SameConnection() {
 		method := c12Methods[rt.Choice("method", rt.Param("M"))]
 		callID := "c" + itoa(c) + "t" + itoa(t)
 		// pairwise distinct branches: the magic cookie followed by a symbolic value
-		branch := "z9hG4bK" + rt.Str("br", "[0-9a-fzhGK]", 1, L+2)
+		branch := "z9hG4bK" + rt.Str("br", "[0-9a-fzhGK.-]", 1, L+2)
 		for _, b := range branches {
 			rt.Assume(b != branch)
 		}
